@@ -1,5 +1,6 @@
 import Py4hwV.Proofs.C01FlatV
 import Py4hwV.Props.C01
+import Py4hwV.Proofs.C01FlatKinds
 import Py4hwV.Props.C04
 import Py4hwV.Props.C06
 /-
@@ -81,11 +82,17 @@ theorem g_cons0 (x : Nat) (l : List Nat) : g (x :: l) 0 = (x : Int) := rfl
 theorem g_cons1 (x y : Nat) (l : List Nat) : g (x :: y :: l) 1 = (y : Int) := rfl
 theorem g_cons2 (x y z : Nat) (l : List Nat) : g (x :: y :: z :: l) 2 = (z : Int) := rfl
 
+theorem zip_map_self {α β γ : Type} (ins : List α) (V : α → β) (h : α × β → γ) :
+    (ins.zip (ins.map V)).map h = ins.map fun x => h (x, V x) := by
+  induction ins with
+  | nil => rfl
+  | cons a l ih => simp [ih]
+
 /-- **every covered primitive**: the emitted right-hand side, on operands carrying the values `V`, evaluates to what the
     GENERATED propagate() lands on the output wire (all widths, all values) -/
 theorem kind_eval (wd : Nat → Nat) (nm : Nat → String) (k : Kind) (hok : k.ok wd) (r : Rd) (V : Nat → Nat)
     (hK : ∀ x, x ∈ (k.leaf wd).ins → Known r (nm x) (wd x) (V x)) :
-    evalAssign r (wd k.out) (k.rhs nm) =
+    evalAssign r (wd k.out) (k.rhs wd nm) =
       ⟨wd k.out, Bits.put (wd k.out) ((k.leaf wd).py ((k.leaf wd).ins.map V)), true⟩ := by
   cases k with
   | and2 a b o =>
@@ -158,5 +165,42 @@ theorem kind_eval (wd : Nat → Nat) (nm : Nat → String) (k : Kind) (hok : k.o
     simp only [Leaf.landed] at this
     simp only [Kind.rhs, Kind.out, Kind.leaf, List.map, g_cons0, this]
     exact inline_range (wd o) hi lo hok.1 hok.2 (hK a (by simp [Kind.leaf]))
+  | catm ins o =>
+    have hz : (ins.zip (ins.map V)).map (fun p => ((wd p.1 : Int), (p.2 : Int))) =
+        (ins.map fun x => (wd x, V x)).map fun p => ((p.1 : Int), (p.2 : Int)) := by
+      rw [zip_map_self, List.map_map]; rfl
+    have := gen_concatMSBF (wd o) (ins.map fun x => (wd x, V x))
+    simp only [Leaf.landed] at this
+    simp only [Kind.rhs, Kind.out, Kind.leaf, hz, this]
+    have := inline_concat (r := r) (wd o) (ins.map fun x => (nm x, wd x, V x)) (by intro e; exact hok (by simpa using e))
+      (by intro x hx; rcases List.mem_map.mp hx with ⟨y, hy, e⟩; subst e; exact hK y (by simpa [Kind.leaf] using hy))
+    simpa [List.map_map, Function.comp_def] using this
+  | catl ins o =>
+    have hz : (ins.zip (ins.map V)).map (fun p => ((wd p.1 : Int), (p.2 : Int))) =
+        (ins.map fun x => (wd x, V x)).map fun p => ((p.1 : Int), (p.2 : Int)) := by
+      rw [zip_map_self, List.map_map]; rfl
+    have := Leaf.gen_concatLSBF (wd o) (ins.map fun x => (wd x, V x))
+    simp only [Leaf.landed] at this
+    simp only [Kind.rhs, Kind.out, Kind.leaf, hz, this]
+    have := inline_concat (r := r) (wd o) (ins.map fun x => (nm x, wd x, V x)) (by intro e; exact hok (by simpa using e))
+      (by intro x hx; rcases List.mem_map.mp hx with ⟨y, hy, e⟩; subst e; exact hK y (by simpa [Kind.leaf] using hy))
+    simpa [List.map_map, Function.comp_def] using this
+  | sext a o =>
+    have := Leaf.gen_sext (wd o) (wd a) (V a)
+    simp only [Leaf.landed] at this
+    simp only [Kind.rhs, Kind.out, Kind.leaf, List.map, g_cons0, this]
+    exact inline_sext (wd o) hok.1 hok.2 (hK a (by simp [Kind.leaf]))
+  | smul a b o =>
+    have := Leaf.gen_smul (wd o) (wd a) (wd b) (V a) (V b) hok.1 hok.2
+    simp only [Leaf.landed] at this
+    simp only [Kind.rhs, Kind.out, Kind.leaf, List.map, g_cons0, g_cons1, this]
+    exact inline_smul (wd o) hok.1 hok.2 (hK a (by simp [Kind.leaf])) (hK b (by simp [Kind.leaf]))
+  | rept i o =>
+    have := Leaf.gen_repeat (wd o) (V i)
+    simp only [Leaf.landed] at this
+    simp only [Kind.rhs, Kind.out, Kind.leaf, List.map, g_cons0, this]
+    have hki := hK i (by simp [Kind.leaf])
+    rw [hok.1] at hki
+    exact inline_repeat (wd o) hok.2 (nm i) (V i) hki
 
 end FlatM
